@@ -6,6 +6,7 @@ from hypothesis import strategies as st
 from harness import model
 
 EXC_NAMES = ["ValueError", "KeyError", "CustomError", "TimeoutError", "RuntimeError"]
+RARE_EXC: list = []  # extended by checks that can judge them (C02: an exception whose str() raises)
 EAGER_ACTIONS = ["ack", "nack", "reject", "reschedule", "retry", "force_retry"]
 
 json_leaf = st.one_of(st.none(), st.booleans(), st.integers(-1000, 1000), st.text("abcxyz é", max_size=5),
@@ -22,8 +23,12 @@ def outcome_ret(values=json_value):
     return st.fixed_dictionaries({"k": st.just("ret"), "v": values, "sleep": sleeps})
 
 
+def outcome_unserializable():
+    return st.fixed_dictionaries({"k": st.just("ret"), "v": st.just({"$unserializable": True}), "sleep": sleeps})
+
+
 def outcome_raise():
-    return st.fixed_dictionaries({"k": st.just("raise"), "exc": st.sampled_from(EXC_NAMES),
+    return st.fixed_dictionaries({"k": st.just("raise"), "exc": st.sampled_from(EXC_NAMES + RARE_EXC),
                                  "text": st.text("abc xyz", max_size=6), "sleep": sleeps})
 
 
@@ -69,6 +74,7 @@ def job(draw, idx: int, actors: list, *, allow_eager=True, allow_timeout=True, a
     # attempts
     opts = [outcome_ret(), outcome_raise()]
     if shape != "sync":
+        opts.append(outcome_unserializable())
         if small_timeout:
             opts.append(outcome_timeout())
         if allow_eager:
